@@ -163,6 +163,7 @@ def resume_all(ctx: Ctx) -> None:
                 "the operation counts as computed only if *all* of its outputs are complete"
                 + ("" if ok else f" — found `{unparse(v, 60)}`" + (": one complete output would mark the whole operation computed" if quant == "any" else "")),
                 sel="all:return-after-scan",
+                firm=quant == "any",
             )
             if gen is not None:
                 shape_ok = True
@@ -537,24 +538,35 @@ def copy_mut(ctx: Ctx) -> None:
                     props=_props_for(f),
                 )
     eff = effects_of(repo)
-    for hq, params in helpers.items():
+    work = [(hq, p) for hq, ps in helpers.items() for p in sorted(ps)]
+    done: set[tuple[str, str]] = set()
+    while work:
+        hq, p = work.pop(0)
+        if (hq, p) in done:
+            continue
+        done.add((hq, p))
         h = repo.get(hq)
         for d, c, ts in repo.all_call_sites():
             if d is None or not any(t.kind == "def" and t.ref is h for t in ts):
                 continue
             b = eff.bind(c, h, d)
             fl, cfg = flow_of(repo, d), cfg_of(d)
-            for p in params:
-                v = b.get(p)
-                ok = False
-                why = "argument not understood"
-                if v and v[0] == "expr":
-                    roots = _graph_roots(fl, v[1], cfg.node_of(c))
-                    ok = bool(roots) and all(_is_fresh_root(r) or r == f"call:{hq}" or r.startswith(f"call:{A.PLAN}.Plan._") for r in roots)
-                    why = f"origin {sorted(roots)[:2]}"
-                elif v and v[0] == "param":
-                    why = f"caller's own parameter `{v[1]}`"
-                ctx.ob(d, c, ok, f"`{h.name}` mutates its `{p}` argument: the caller must pass a fresh copy" + ("" if ok else f" — {why}"), sel=f"copy:arg:{h.name}", props=_props_for(d))
+            v = b.get(p)
+            ok = False
+            why = "argument not understood"
+            if v and v[0] == "expr":
+                roots = _graph_roots(fl, v[1], cfg.node_of(c))
+                ok = bool(roots) and all(_is_fresh_root(r) or r == f"call:{hq}" or r.startswith(f"call:{A.PLAN}.Plan._") for r in roots)
+                why = f"origin {sorted(roots)[:2]}"
+            elif v and v[0] == "param":
+                why = f"caller's own parameter `{v[1]}`"
+                if d.name.startswith("_") and not d.name.startswith("__") and d is not h:
+                    # a private function that hands its own parameter on to a mutating
+                    # helper mutates that parameter itself: the obligation moves up again
+                    work.append((d.qual, v[1]))
+                    ctx.ob(d, c, True, f"`{h.name}` mutates its `{p}` argument, which is `{d.name}`'s own parameter `{v[1]}`; callers of `{d.name}` are checked", sel=f"copy:arg:{h.name}", props=_props_for(d), nontrivial=False)
+                    continue
+            ctx.ob(d, c, ok, f"`{h.name}` mutates its `{p}` argument: the caller must pass a fresh copy" + ("" if ok else f" — {why}"), sel=f"copy:arg:{h.name}", props=_props_for(d))
     ctx.need(n_sites >= 6, f"only {n_sites} graph mutation sites found")
 
 
